@@ -411,7 +411,8 @@ class Scalar(Qube):
             obj = Scalar(np.arcsin(temp_values), temp_mask)
 
         else:
-            with warnings.catch_warnings():
+            with warnings.catch_warnings(), \
+                 np.errstate(divide='warn', over='warn', invalid='warn'):
                 warnings.filterwarnings('error')
                 try:
                     func_values = np.arcsin(self._values_)
@@ -465,7 +466,8 @@ class Scalar(Qube):
             obj = Scalar(np.arccos(temp_values), temp_mask)
 
         else:
-            with warnings.catch_warnings():
+            with warnings.catch_warnings(), \
+                 np.errstate(divide='warn', over='warn', invalid='warn'):
                 warnings.filterwarnings('error')
                 try:
                     func_values = np.arccos(self._values_)
@@ -597,7 +599,8 @@ class Scalar(Qube):
 
         else:
             no_negs = self
-            with warnings.catch_warnings():
+            with warnings.catch_warnings(), \
+                 np.errstate(divide='warn', over='warn', invalid='warn'):
                 warnings.filterwarnings('error')
                 try:
                     sqrt_vals = np.sqrt(no_negs._values_)
@@ -639,7 +642,8 @@ class Scalar(Qube):
             log_values = np.log(no_negs._values_)
         else:
             no_negs = self
-            with warnings.catch_warnings():
+            with warnings.catch_warnings(), \
+                 np.errstate(divide='warn', over='warn', invalid='warn'):
                 warnings.filterwarnings('error')
                 try:
                     log_values = np.log(no_negs._values_)
@@ -685,7 +689,8 @@ class Scalar(Qube):
 
         else:
             no_oflow = self
-            with warnings.catch_warnings():
+            with warnings.catch_warnings(), \
+                 np.errstate(divide='warn', over='warn', invalid='warn'):
                 warnings.filterwarnings('error')
                 try:
                     exp_values = np.exp(no_oflow._values_)
@@ -1351,7 +1356,8 @@ class Scalar(Qube):
         # mask out zeros if necessary
         if nozeros:
             denom = self
-            with warnings.catch_warnings():
+            with warnings.catch_warnings(), \
+                 np.errstate(divide='warn', over='warn', invalid='warn'):
                 warnings.filterwarnings('error')
                 denom_inv_mask = denom._mask_
                 try:
